@@ -55,6 +55,9 @@ type Exec struct {
 	bitScanStack []bitScanCtx
 	rtIndex map[rtKey]*rtEntry
 	killPath *Term
+	prefers []*Term
+	conjMemo map[int32]map[int32]bool
+	prefQ   func(n int, cond *Term) *Query
 	tier string
 	backings map[string]*Object
 	panicAsAssume bool // treat explicit panics as path end without obligation (per harness option)
@@ -956,6 +959,8 @@ func (x *Exec) isNilTerm(v Value) *Term {
 		return r
 	case *SliceV:
 		return x.c.Bool(t.Base == nil)
+	case *SliceGV:
+		return x.c.Ite(t.G, x.isNilTerm(t.A), x.isNilTerm(t.B))
 	case *MapV:
 		return x.c.Bool(t.Obj == nil)
 	case *FuncV:
@@ -973,7 +978,7 @@ func (x *Exec) unop(fr *Frame, t *ssa.UnOp, g *Term) Value {
 	c := x.c
 	switch t.Op {
 	case token.MUL:
-		return x.load(x.ptrChecked(fr, t.X, g, t.Pos()))
+		return x.restrictValue(x.load(x.ptrChecked(fr, t.X, g, t.Pos())), g)
 	case token.NOT:
 		return c.Not(x.term(fr, t.X))
 	case token.SUB:
@@ -1157,6 +1162,81 @@ func (x *Exec) abstractDiv(a, b *Term) *Term {
 	return q
 }
 
+// conjuncts returns the set of conjuncts of guard g (memoised).
+func (x *Exec) conjuncts(g *Term) map[int32]bool {
+	if x.conjMemo == nil {
+		x.conjMemo = map[int32]map[int32]bool{}
+	}
+	if m, ok := x.conjMemo[g.ID]; ok {
+		return m
+	}
+	m := map[int32]bool{}
+	var rec func(t *Term, d int)
+	rec = func(t *Term, d int) {
+		if t.Op == OAnd && d < 200 {
+			// reuse memo of sub-conjunctions
+			for _, a := range t.A {
+				if sub, ok := x.conjMemo[a.ID]; ok {
+					for k := range sub {
+						m[k] = true
+					}
+				} else {
+					rec(a, d+1)
+				}
+			}
+			return
+		}
+		m[t.ID] = true
+	}
+	rec(g, 0)
+	m[g.ID] = true
+	x.conjMemo[g.ID] = m
+	return m
+}
+
+// restrictValue simplifies a value read under guard g: ite(c, a, b) with c (or ¬c) a conjunct of g
+// is a (or b). Values written under a guard and read back under the same guard lose their ite.
+func (x *Exec) restrictValue(v Value, g *Term) Value {
+	if g.IsTrue() {
+		return v
+	}
+	t, ok := v.(*Term)
+	if !ok {
+		return v
+	}
+	if t.Op != OIte {
+		return v
+	}
+	cj := x.conjuncts(g)
+	for d := 0; d < 16 && t.Op == OIte; d++ {
+		c := t.A[0]
+		if cj[c.ID] || x.impliedBy(cj, c) {
+			t = t.A[1]
+			continue
+		}
+		nc := x.c.Not(c)
+		if cj[nc.ID] {
+			t = t.A[2]
+			continue
+		}
+		break
+	}
+	return t
+}
+
+// impliedBy: c is a conjunction whose conjuncts are all in cj
+func (x *Exec) impliedBy(cj map[int32]bool, c *Term) bool {
+	if c.Op != OAnd {
+		return false
+	}
+	for _, a := range c.A {
+		if !cj[a.ID] && !x.impliedBy(cj, a) {
+			return false
+		}
+	}
+	return true
+}
+
 func (x *Exec) equal(a, b Value, t types.Type) *Term {
 	c := x.c
 	a, b = x.force(a), x.force(b)
@@ -1187,7 +1267,7 @@ func (x *Exec) equal(a, b Value, t types.Type) *Term {
 		return r
 	case *PtrV, *PtrSetV:
 		return x.ptrEq(a, b)
-	case *SliceV, *MapV, *FuncV:
+	case *SliceV, *SliceGV, *MapV, *FuncV:
 		// only comparison with nil is legal
 		if isNilValue(b) {
 			return x.isNilTerm(a)
@@ -1451,6 +1531,26 @@ func (x *Exec) indexAddr(fr *Frame, t *ssa.IndexAddr, g *Term) Value {
 	idx := x.idx64(fr, t.Index)
 	base := x.eval(fr, t.X)
 	switch bv := base.(type) {
+	case *SliceGV:
+		var alts []sliceAlt
+		x.sliceAlts(bv, c.True, &alts)
+		out := &PtrSetV{}
+		bad := c.False
+		for _, al := range alts {
+			if al.s.Base == nil {
+				bad = c.Or(bad, al.g)
+				continue
+			}
+			bad = c.Or(bad, c.And(al.g, c.Not(c.Ult(idx, al.s.Len))))
+			p := x.ptrExtend(al.s.Base, PathElem{Field: -1, Idx: c.Add(al.s.Off, idx)}).(*PtrV)
+			out.Alts = append(out.Alts, PtrAlt{G: al.g, P: p})
+		}
+		x.runtimeCheck("index-out-of-range", g, bad, t.Pos())
+		if len(out.Alts) == 0 {
+			et := t.Type().(*types.Pointer).Elem()
+			return &PtrV{Obj: x.newObject(et, x.zero(et), "oob-dummy")}
+		}
+		return out
 	case *SliceV:
 		if bv.Base == nil {
 			x.runtimeCheck("index-out-of-range", g, c.True, t.Pos())
@@ -1524,6 +1624,19 @@ func (x *Exec) sliceOp(fr *Frame, t *ssa.Slice, g *Term) Value {
 		mx = x.idx64(fr, t.Max)
 	}
 	switch bv := base.(type) {
+	case *SliceGV:
+		var alts []sliceAlt
+		x.sliceAlts(bv, c.True, &alts)
+		var res Value
+		for i := len(alts) - 1; i >= 0; i-- {
+			r := x.sliceOfSlice(alts[i].s, lo, hi, mx, c.And(g, alts[i].g), t.Pos())
+			if res == nil {
+				res = r
+			} else {
+				res = x.merge(alts[i].g, r, res)
+			}
+		}
+		return res
 	case *StrV:
 		ss := x.strSym(bv)
 		if hi == nil {
@@ -1532,22 +1645,7 @@ func (x *Exec) sliceOp(fr *Frame, t *ssa.Slice, g *Term) Value {
 		x.runtimeCheck("slice-bounds", g, c.Or(c.Not(c.Ule(lo, hi)), c.Not(c.Ule(hi, ss.Len))), t.Pos())
 		return x.substr(ss, lo, hi)
 	case *SliceV:
-		if bv.Base == nil {
-			if hi == nil {
-				hi = c.Const(64, 0)
-			}
-			x.runtimeCheck("slice-bounds", g, c.Or(c.Ne(lo, c.Const(64, 0)), c.Ne(hi, c.Const(64, 0))), t.Pos())
-			return bv
-		}
-		if hi == nil {
-			hi = bv.Len
-		}
-		if mx == nil {
-			mx = bv.Cap
-		}
-		bad := c.Or(c.Not(c.Ule(lo, hi)), c.Or(c.Not(c.Ule(hi, mx)), c.Not(c.Ule(mx, bv.Cap))))
-		x.runtimeCheck("slice-bounds", g, bad, t.Pos())
-		return &SliceV{Base: bv.Base, Off: c.Add(bv.Off, lo), Len: c.Sub(hi, lo), Cap: c.Sub(mx, lo)}
+		return x.sliceOfSlice(bv, lo, hi, mx, g, t.Pos())
 	case *PtrV:
 		// pointer to array
 		p := x.ptrChecked(fr, t.X, g, t.Pos()).(*PtrV)
@@ -1565,6 +1663,26 @@ func (x *Exec) sliceOp(fr *Frame, t *ssa.Slice, g *Term) Value {
 	}
 	x.fail("slice of %T", base)
 	return nil
+}
+
+func (x *Exec) sliceOfSlice(bv *SliceV, lo, hi, mx *Term, g *Term, pos token.Pos) Value {
+	c := x.c
+	if bv.Base == nil {
+		if hi == nil {
+			hi = c.Const(64, 0)
+		}
+		x.runtimeCheck("slice-bounds", g, c.Or(c.Ne(lo, c.Const(64, 0)), c.Ne(hi, c.Const(64, 0))), pos)
+		return bv
+	}
+	if hi == nil {
+		hi = bv.Len
+	}
+	if mx == nil {
+		mx = bv.Cap
+	}
+	bad := c.Or(c.Not(c.Ule(lo, hi)), c.Or(c.Not(c.Ule(hi, mx)), c.Not(c.Ule(mx, bv.Cap))))
+	x.runtimeCheck("slice-bounds", g, bad, pos)
+	return &SliceV{Base: bv.Base, Off: c.Add(bv.Off, lo), Len: c.Sub(hi, lo), Cap: c.Sub(mx, lo)}
 }
 
 func (x *Exec) substr(ss *StrV, lo, hi *Term) *StrV {
@@ -1732,6 +1850,16 @@ func (x *Exec) builtin(fr *Frame, name string, cc *ssa.CallCommon, args []Value,
 	switch name {
 	case "len":
 		switch v := x.force(args[0]).(type) {
+		case *SliceGV:
+			var alts []sliceAlt
+			x.sliceAlts(v, c.True, &alts)
+			r := c.Const(64, 0)
+			for _, al := range alts {
+				if al.s.Base != nil {
+					r = c.Ite(al.g, al.s.Len, r)
+				}
+			}
+			return r
 		case *SliceV:
 			if v.Base == nil {
 				return c.Const(64, 0)
@@ -1752,6 +1880,16 @@ func (x *Exec) builtin(fr *Frame, name string, cc *ssa.CallCommon, args []Value,
 		}
 	case "cap":
 		switch v := args[0].(type) {
+		case *SliceGV:
+			var alts []sliceAlt
+			x.sliceAlts(v, c.True, &alts)
+			r := c.Const(64, 0)
+			for _, al := range alts {
+				if al.s.Base != nil {
+					r = c.Ite(al.g, al.s.Cap, r)
+				}
+			}
+			return r
 		case *SliceV:
 			if v.Base == nil {
 				return c.Const(64, 0)
